@@ -675,7 +675,7 @@ pub fn run_seq_with_state(seq: &Seq, dir: &Path, driver: &mut Option<Driver>, op
                             Ok(()) => {}
                             _ => {
                                 dead = true;
-                                diffs.push(Diff { idx, facet: "open", op: "reopen-after-cmp".into(), got: "panic/err".into(), want: "ok".into() });
+                                diffs.push(Diff { idx, facet: "oracle", op: "drop every handle, then open the directory again (reopen-after-cmp)".into(), got: "panic/err".into(), want: "ok".into() });
                             }
                         }
                     }
